@@ -48,7 +48,7 @@ PROPS = {
                         "rows, 8/5 via Huffman) but not yet a theorem"],
     },
     "C12": {
-        "bins": ["codec"],
+        "bins": ["codec", "e2e"],
         "rule": "all histories up to depth 3 (quick) / 4 (thorough) over {DATA, HEADERS, SETTINGS, WT-signal valid / "
                 "invalid id, GREASE, oversize, unknown} plus truncation of the last element at end of stream, on each "
                 "of the four typestates, one-shot and async readers, oracle = independent transcription of the RFC "
@@ -58,7 +58,7 @@ PROPS = {
         "assumptions": ["driver half (codes seen on the wire by a raw peer) is in the e2e correspondence when present"],
     },
     "C13": {
-        "bins": ["codec"],
+        "bins": ["codec", "e2e"],
         "rule": "valid exchanges per typestate with 1-3 unknown / GREASE frames (every varint length of the type, payloads "
                 "empty / frame-looking / `01 00` / 4095..5000 bytes) inserted at random frame boundaries: metamorphic "
                 "equality of the known-frame sequences (sync and async); settings maps with unknown / GREASE ids "
@@ -98,7 +98,7 @@ PROPS = {
         "assumptions": ["live half (peer limits 0..65535, max_datagram_size under catch_unwind) is in the e2e correspondence when present"],
     },
     "C16": {
-        "bins": ["codec"],
+        "bins": ["codec", "e2e"],
         "rule": "advertised settings, header maps (static hits, name-only hits, literals, Huffman and plain strings, "
                 "prefix-integer boundaries), responses for every status, WT preambles for random session ids, "
                 "datagrams: every emitted byte string decoded by the independent Spec decoders; non-trivial = distinct line",
@@ -160,8 +160,11 @@ PROPS = {
         "assumptions": ["the QPACK field-section round trip is tied by correspondence and Spec decoding of emitted bytes, not yet a theorem"],
     },
     "C05": {
-        "bins": ["e2e"],
-        "rule": "e2e `ctrl.cut`: raw peer against the real endpoint; targets {SETTINGS, CONNECT request, response, GREASE frame "
+        "bins": ["codec", "e2e"],
+        "rule": "codec `ts.all`: control-plane byte sequences (SETTINGS, unknown frames with payloads, GREASE small and "
+                "oversize, close capsule, HEADERS) on the control / session / request typestates under every single cut, "
+                "pairs of cuts, Pending between the pieces, byte by byte and random scripts, compared with the one-piece "
+                "read; e2e `ctrl.cut`: raw peer against the real endpoint; targets {SETTINGS, CONNECT request, response, GREASE frame "
                 "on the control stream, GREASE frame on the session stream, close capsule} x cut positions (quick: sampled; "
                 "thorough: every position) x events between the pieces {none, datagram, uni stream, bidi stream, frame on the "
                 "other critical stream} x both sides x both runtimes; the expected outcome is the worker model on the whole "
